@@ -12,6 +12,8 @@ mod c12;
 mod c14;
 mod c15;
 mod c16;
+mod c18;
+mod c19;
 mod c20;
 mod c_docs;
 mod common;
@@ -38,6 +40,15 @@ fn main() {
         let tier = if args[2] == "thorough" { Tier::Thorough } else { Tier::Quick };
         std::process::exit(c05::worker(tier, args[3].parse().unwrap(), args[4].parse().unwrap(), args[5].parse().unwrap()));
     }
+    if prop == "warm-cfg" {
+        for (name, feats) in c18::configs(Tier::Quick) {
+            if let Err(e) = c18::build(name, feats) {
+                println!("MACHINERY-ERROR configuration {} does not build at setup time:\n{}", name, e);
+                std::process::exit(2);
+            }
+        }
+        std::process::exit(0);
+    }
     if prop == "audit" {
         std::process::exit(c_docs::audit_model());
     }
@@ -47,6 +58,8 @@ fn main() {
             "C01" | "C02" | "C09" => c_docs::replay(prop, path),
             "C03" => c03::replay(path),
             "C14" => c14::replay(path),
+            "C19" => c19::replay(path),
+            "C18" => c18::replay(path),
             "C08" => c08::replay(path),
             "C06" => c06::replay(path),
             "C07" | "C13" | "C17" => c07::replay(prop, path),
@@ -82,6 +95,8 @@ fn main() {
         "C09" => c_docs::c09(tier),
         "C03" => c03::c03(tier),
         "C14" => c14::c14(tier),
+        "C19" => c19::c19(tier),
+        "C18" => c18::c18(tier),
         "C08" => c08::c08(tier),
         "C06" => c06::c06(tier),
         "C07" => c07::c07(tier),
